@@ -15,6 +15,7 @@ long long t1(_Bool b1, _Bool b2, char c1, char c2, signed char sc1, unsigned cha
   i1 = sizeof i2 * *pi1;
   i1 = sizeof (pi1 + 1)[2];
   i1 = sizeof (ps1)->m;
+  ki(sizeof &*pi2);
   i1, i2 = 3;
   l1 * ul1, st1;
   return ull1 & (long)us2;
